@@ -1,7 +1,8 @@
 #!/bin/sh
 # usage: tools/verify_seed.sh <worktree> "<demo command>" "<existing-tests command>" [more test commands]
-# Confirms a seeded change in the agent's scratch worktree: demo fails with the change, passes without it, the
-# touched crates' existing tests pass with it (the demo itself excluded by the caller's command where needed).
+# Confirms a seeded change in the agent's scratch worktree: the demonstration fails with the change and passes
+# without it; then everything but the library change is removed from the worktree (demo files, hook-ups) and the
+# existing tests of the touched crates are run with only patch.diff applied.
 W="$1"; DEMO="$2"; shift 2
 cd "$W" || exit 2
 export CARGO_TARGET_DIR="$W/target" RUST_BACKTRACE=0 CARGO_NET_OFFLINE=true
@@ -9,10 +10,11 @@ git apply --check -R SEEDED/patch.diff 2>/dev/null || { echo "patch not applied 
 sh -c "$DEMO" > /tmp/vs-with.log 2>&1; a=$?
 git apply -R SEEDED/patch.diff || exit 2
 sh -c "$DEMO" > /tmp/vs-without.log 2>&1; b=$?
-git apply SEEDED/patch.diff || exit 2
 echo "demo with change: rc=$a   without: rc=$b   $( [ $a -ne 0 ] && [ $b -eq 0 ] && echo CONFIRMED || echo NOT-CONFIRMED )"
-grep -E "^test .*(FAILED|ok)$|panicked|test result" /tmp/vs-with.log | head -8
+grep -E "^test .*(FAILED|ok)$|test result" /tmp/vs-with.log | head -6
+git checkout -- . && git clean -fdq -e target -e SEEDED
+git apply SEEDED/patch.diff || { echo "patch.diff does not apply to a clean checkout"; exit 2; }
 for t in "$@"; do
     sh -c "$t" > /tmp/vs-tests.log 2>&1; c=$?
-    echo "existing tests [$t]: rc=$c"; grep -E "test result|FAILED|failed" /tmp/vs-tests.log | head -12
+    echo "existing tests, only patch.diff applied [$t]: rc=$c"; grep -E "FAILED|failed" /tmp/vs-tests.log | head -8
 done
